@@ -165,6 +165,47 @@ def r20_target(repo, sink):
                        "(push-based input, second buffering adapter) would not find the new publication yet")
     except (Raised, Undecided) as exc:
         sink.unknown("R20", "notification-order", su, f"outside vocabulary: {exc}")
+    # every adapter class passes the notification on with the time it received (its own, possibly overridden, source_updated /
+    # notify_targets): the time names the publication, whatever the adapter will do with requests later
+    n_cls = 0
+    for e in ads:
+        if repo.is_abstract(e.cls) or e.cls is rep.cls:
+            continue
+        su_k = repo.resolve(e.cls, "source_updated", "method")
+        od_k = Order()
+        od_k.name(tn, "tn", 5)
+        od_k.name(Sym("t_init"), "t_init", 1)
+        it_k = _N(repo, od_k)
+        try:
+            me_k = _mk_adapter3(repo, e.cls)
+            if repo.resolve(e.cls, "initial_time", "getter") is not None:
+                from ..absbase import set_backed
+                try:
+                    set_backed(repo, me_k, "initial_time", Sym("t_init"))  # (a connected delay adapter knows its source's starting time)
+                except (AnalysisError, KeyError):
+                    pass
+            elif "initial_time" in me_k.fields:
+                me_k.fields["initial_time"] = Sym("t_init")
+            for tq in _quiet_targets():
+                it_k.run(repo.resolve(e.cls, "add_target", "method"), [tq], self_obj=me_k)
+            it_k.fork = True  # (value-dependent branches - a clamp against the starting time - are explored on both outcomes)
+
+            def thunk(it_k=it_k, su_k=su_k, me_k=me_k):
+                it_k.events = []
+                it_k.run(su_k, [tn], self_obj=me_k)
+                return [ev for ev in it_k.events if ev[0] == "notify"]
+
+            paths = it_k.run_all(thunk, limit=64)
+        except (Raised, Undecided, AnalysisError, KeyError, TypeError, RecursionError):
+            continue  # (adapters whose notification needs more set-up are decided by their own rules: buffers R26, delays R30)
+        n_cls += 1
+        want_n = [("notify", "tgt1", tn), ("notify", "tgt2", tn)]
+        notes = next((val for _d, (kind, val) in paths if kind == "ret" and val != want_n), want_n)
+        sink.check(notes == want_n, "R20", f"notification-time:{e.cls.name}", su_k,
+                   ok="targets are notified with the time of the publication",
+                   bad=f"{e.cls.name} passes the notification on as {notes!r}; expected both targets with the unchanged time {tn!r}: a buffering adapter downstream "
+                       "files the publication under another time than the one the scheduler made available")
+    sink.floor("R20", "adapter classes whose notification was run", n_cls, 6)
     it = _N(repo, Order())
     try:
         it.run(su, [Sym("nonsense")], self_obj=me)
@@ -599,7 +640,7 @@ class _PushRec(ExchMixin, FinamInterp):
     def ext_call(self, name, args, kwargs, node):
         if name.endswith("may_share_memory"):
             self.events.append(("sharecheck", args[0], args[1]))
-            return self.shares
+            return self.shares(args[0], args[1]) if callable(self.shares) else self.shares
         return super().ext_call(name, args, kwargs, node)
 
     def ext_isinstance(self, v, name, node):
@@ -699,6 +740,15 @@ def r17_pushpath(repo, sink):
     o = mk(n_prev=1, prev_file=True)
     err, it = run(o, shares=True)
     cases.append(("newest-entry-on-disk", err is None and not any(e[0] == "sharecheck" for e in it.events) and len(o.fields["data"]) == 2, f"{err} {it.events}"))
+    # 6b the newest entry lives in a file, an older one is still in RAM (limit crossed in between) and the new payload shares
+    # memory with that OLDER one: without a limit only the newest publication is compared, so this is accepted - the limit must
+    # not change which publications are refused
+    o = mk(n_prev=2, limit=0)
+    o.fields["data"] = [o.fields["data"][0], (o.fields["data"][1][0], Sym("file", 1))]
+    err, it = run(o, shares=lambda a, b: any("prev" in repr(x) for x in (a, b)))
+    cases.append(("older-entry-in-ram-newest-on-disk", err is None and len(o.fields["data"]) == 3,
+                  f"{err} {it.events}: a payload sharing memory with an OLDER retained publication is refused only because the newest one was spilled; "
+                  "the same producer runs without a limit (only the newest publication is compared)"))
     # 7 normal publication
     o = mk(n_prev=1)
     err, it = run(o)
@@ -759,7 +809,7 @@ def r17_pushpath(repo, sink):
     g = repo.method("CallbackOutput", "get_data")
     why = None
     try:
-        for shares in (False, True):
+        for shares, other_target in ((False, False), (True, False), (True, True), (False, True)):
             it = _CbRec(repo)
             it.shares_script = [shares]
             q1, q2 = Sym("q1"), Sym("q2")
@@ -770,14 +820,21 @@ def r17_pushpath(repo, sink):
             me = built_output(repo, "CallbackOutput", ctor={"callback": Sym("stubcall", Ref(cb), "provider"), "name": "o"},
                               targets=[Obj(label="t", markers={"IInput"}, fields={"name": "t"})], pinged=[Obj(label="t2", markers={"IInput"}, fields={"name": "t2"})])
             tgt = Obj(label="target")
+            # (the previous answer is the previous answer whoever asked: a provider re-using its buffer overwrites what the other
+            # consumer received)
+            tgt2 = Obj(label="another target") if other_target else tgt
             r1 = it.run(g, [q1, tgt], self_obj=me)
             n1 = len(it.share_checks)
             try:
-                r2 = it.run(g, [q2, tgt], self_obj=me)
+                r2 = it.run(g, [q2, tgt2], self_obj=me)
                 second = "answered"
             except Raised as r:
                 second = r.name
             checks = it.share_checks[n1:]
+            if other_target and (len(checks) != 1 or (shares and second != "FinamDataError")):
+                why = why or (f"two end points ask one after the other: the second answer is compared with {checks!r} and {second}; it must be compared with the "
+                              "previous answer although another end point received it (a provider re-using its buffer silently overwrites the first consumer's data)")
+                continue
             if n1 > 0 and any("provided" in repr(c[0]) and "provided" in repr(c[1]) for c in it.share_checks[:n1]):
                 why = why or "the very first answer is compared with itself"
             elif len(checks) != 1 or not ("1" in repr(checks[0]) and "2" in repr(checks[0])):
@@ -815,6 +872,8 @@ class _ConvRec(ExchMixin, FinamInterp):
         self.events = []
 
     def call_hook(self, fv, args, kwargs, node, mod):
+        if isinstance(fv, Sym) and fv.op == "arr_method":
+            return Sym(fv.args[1], fv.args[0], *args)  # a cast / rounding: other numbers than the converted data
         if isinstance(fv, Sym) and fv.op == "src_get_data":
             self.events.append(("fetch", tuple(args) + tuple(kwargs.get(k) for k in ("target",) if k in kwargs)))
             return Sym("raw")
@@ -826,7 +885,8 @@ class _ConvRec(ExchMixin, FinamInterp):
             if n == "to_units":
                 self.events.append(("to_units", args[0], args[1] if len(args) > 1 else kwargs.get("units"), kwargs.get("check_equivalent", False)))
                 r = Sym("converted", args[0])
-                return (r, None) if kwargs.get("report_conversion") else r
+                conv = (Sym("U", "from"), Sym("U", "to")) if getattr(self, "converting", False) else None  # (a real conversion is reported)
+                return (r, conv) if kwargs.get("report_conversion") else r
             if n == "check":
                 self.events.append(("check", args[0], args[1]))
                 return None
@@ -846,7 +906,18 @@ class _ConvRec(ExchMixin, FinamInterp):
             return (self.n_time, Sym("n"))
         if isinstance(obj, Sym) and attr in ("size", "magnitude", "units"):
             return Sym("attr", obj, attr)
+        if isinstance(obj, Sym) and attr == "dtype":
+            return Sym("dtype", obj)
+        if isinstance(obj, Sym) and attr in ("astype", "round", "view"):
+            return Sym("arr_method", obj, attr)
         return super().get_attr(obj, attr, node, mod)
+
+    def sym_compare(self, op, left, right, node):
+        if isinstance(op, (ast.Eq, ast.NotEq)) and all(isinstance(x, Sym) and x.op == "dtype" for x in (left, right)):
+            # converting units may change the dtype (integers become floats): data before and after a conversion differ in dtype
+            eq = left == right
+            return eq if isinstance(op, ast.Eq) else not eq
+        return super().sym_compare(op, left, right, node)
 
     def sym_item(self, c, k, node):
         if isinstance(c, Sym):
@@ -885,8 +956,9 @@ def r18_pullpath(repo, sink):
     inp = repo.cls("Input")
     pd = repo.resolve(inp, "pull_data", "method")
     q = Sym("q")
-    for with_tr in (False, True):
+    for with_tr, converting in ((False, False), (True, False), (False, True), (True, True)):
         it = _ConvRec(repo)
+        it.converting = converting
         it.order.name(q, "q", 1)
         me, _src, _req, _deliv = _linked(repo, it, same_grid=not with_tr)
         info = _prop_info(repo, it, me)
@@ -924,7 +996,7 @@ def r18_pullpath(repo, sink):
                 if "raw" not in repr(qn.args[1]):
                     why = (f"before the unit conversion the data is wrapped into a quantity labelled {qn.args[1]!r} instead of the units it arrived with: "
                            "the following conversion becomes a no-op (1000 m arrive as 1000 km)")
-        sink.check(why is None, "R18", f"convert:{'with' if with_tr else 'without'}-transform", pd,
+        sink.check(why is None, "R18", f"convert:{'with' if with_tr else 'without'}-transform" + (":units-converted" if converting else ""), pd,
                    ok="fetch -> transform (if any) -> to_units(input units, check_equivalent) -> check(input info) -> return", bad=why or "")
     # several time entries (e.g. behind StackTime): the re-assembled array keeps the units of the transformed slices
     it = _ConvRec(repo)
@@ -1430,3 +1502,106 @@ def r18s_shape(repo, sink):
                 worst = worst or f"grid-less data of shape {shape} against a prescribed data shape {gshape}: {res}, expected {want}"
     sink.check(worst is None, "R18", "shape-table:no-grid-prescribed", g,
                ok=f"{ncase} shapes: prescribed extents are binding, -1 extents are free", bad=worst or "")
+
+
+# =========================================================================== R19s: strip_time removes the time axis and nothing else
+def r19s_strip_time(repo, sink):
+    """strip_time(data, grid): data with a leading time axis of one entry loses exactly that axis - every other axis stays,
+    also those of length one (a vector of length 1, a 1 x n array, a grid with a single layer); data without a time axis is
+    returned as it is; several time entries are refused.  Decided on arrays with concrete small shapes (shapes are
+    configuration) through the public function, whatever helpers it uses."""
+    f = repo.func("src/finam/data/tools/core.py", "strip_time")
+
+    class _I(_ShapeInterp):
+        def isinstance(self, v, klass, node):
+            from ..loader import Class
+            if isinstance(klass, Class) and isinstance(v, Obj) and v.label == "grid":
+                return klass.name in ("Grid", "GridBase")
+            if isinstance(klass, Class) and isinstance(v, Obj) and v.label == "nogrid":
+                return klass.name in ("NoGrid", "GridBase")
+            return super().isinstance(v, klass, node)
+
+        def get_attr(self, obj, attr, node, mod):
+            if isinstance(obj, _Arr) and attr == "shape":
+                return tuple(obj.fields["shape"])
+            if isinstance(obj, _Arr) and attr in ("squeeze", "reshape", "__getitem__"):
+                return Sym("arr_method", Ref(obj), attr)
+            return super().get_attr(obj, attr, node, mod)
+
+        def _squeeze(self, a, axis, node):
+            shp = list(a.fields["shape"])
+            if axis is None:
+                out = [n for n in shp if n != 1]
+            else:
+                axes = [axis] if isinstance(axis, int) else list(axis)
+                if any(shp[x] != 1 for x in axes):
+                    self.on_raise(Sym("exc", "ValueError", "cannot select an axis to squeeze out which has size not equal to one"), node)
+                out = [n for i, n in enumerate(shp) if i not in [x % len(shp) for x in axes]]
+            return _arr(out, "view")
+
+        def call_hook(self, fv, args, kwargs, node, mod):
+            if isinstance(fv, Sym) and fv.op == "arr_method" and fv.args[1] == "squeeze":
+                return self._squeeze(fv.args[0].obj, kwargs.get("axis", args[0] if args else None), node)
+            return super().call_hook(fv, args, kwargs, node, mod)
+
+        def ext_call(self, name, args, kwargs, node):
+            short = name.split(".")[-1]
+            if short == "squeeze" and args and isinstance(args[0], _Arr):
+                return self._squeeze(args[0], kwargs.get("axis", args[1] if len(args) > 1 else None), node)
+            if short in ("take",) and args and isinstance(args[0], _Arr) and args[1] == 0 and kwargs.get("axis", args[2] if len(args) > 2 else None) == 0:
+                return _arr(args[0].fields["shape"][1:], "view")
+            if short in ("ndim",) and args and isinstance(args[0], _Arr):
+                return len(args[0].fields["shape"])
+            if short in ("shape",) and args and isinstance(args[0], _Arr):
+                return tuple(args[0].fields["shape"])
+            return super().ext_call(name, args, kwargs, node)
+
+        def get_item(self, c, k, node):
+            if isinstance(c, _Arr):
+                ks = list(k) if isinstance(k, tuple) else [k]
+                shp = list(c.fields["shape"])
+                if ks and ks[0] == 0 and all(x is Ellipsis or (isinstance(x, Sym) and x.op in ("ellipsis",)) or (isinstance(x, Sym) and x.op == "slice" and x.args == (None, None, None)) for x in ks[1:]):
+                    return _arr(shp[1:], "view")
+                raise AnalysisError(f"array subscript {k!r}")
+            return super().get_item(c, k, node)
+
+        def e_Slice(self, e, env, mod):
+            return Sym("slice", *(self.eval(x, env, mod) if x is not None else None for x in (e.lower, e.upper, e.step)))
+
+        def e_Constant(self, e, env, mod):
+            return e.value
+
+    def grid(shape):
+        g = Obj(cls=None, label="grid", markers={"Grid"})
+        g.fields.update(data_shape=tuple(shape), data_size=1, dim=len(shape))
+        return g
+
+    def nogrid(dim):
+        g = Obj(cls=None, label="nogrid", markers={"NoGrid"})
+        g.fields.update(dim=dim, data_shape=(-1,) * dim)
+        return g
+
+    table = [  # (data shape, grid, expected)
+        ((1, 3, 2), grid((3, 2)), ("shape", (3, 2))), ((3, 2), grid((3, 2)), ("same", (3, 2))), ((2, 3, 2), grid((3, 2)), ("raise", "FinamDataError")),
+        ((1, 1, 4), grid((1, 4)), ("shape", (1, 4))), ((1, 4, 1), grid((4, 1)), ("shape", (4, 1))), ((1, 3, 2, 1), grid((3, 2, 1)), ("shape", (3, 2, 1))),
+        ((1, 1, 1), grid((1, 1)), ("shape", (1, 1))), ((1, 4), grid((1, 4)), ("same", (1, 4))),
+        ((1, 1), nogrid(1), ("shape", (1,))), ((1, 5), nogrid(1), ("shape", (5,))), ((1,), nogrid(1), ("same", (1,))), ((1, 1, 6), nogrid(2), ("shape", (1, 6))),
+        ((1,), nogrid(0), ("shape", ())), ((), nogrid(0), ("same", ())), ((3, 1), nogrid(1), ("raise", "FinamDataError")),
+    ]
+    worst = None
+    for shp, g, want in table:
+        data = _arr(shp)
+        try:
+            got = _I(repo).run(f, [data, g])
+            res = ("same", tuple(shp)) if got is data else ("shape", tuple(got.fields["shape"])) if isinstance(got, _Arr) else ("value", got)
+        except Raised as r:
+            res = ("raise", r.name)
+        except (Undecided, AnalysisError) as exc:
+            sink.unknown("R19s", "strip_time-table", f, f"outside vocabulary: {exc}")
+            return
+        ok = res == want or (want[0] == "same" and res == ("shape", want[1]))
+        if not ok:
+            worst = worst or (f"data of shape {shp} on {'a grid with data shape ' + str(g.fields['data_shape']) if g.label == 'grid' else 'grid-less data of rank ' + str(g.fields['dim'])}: "
+                              f"strip_time gives {res}, expected {want} - only the leading time axis goes, axes of length one of the payload stay")
+    sink.check(worst is None, "R19s", "strip_time-table", f,
+               ok=f"{len(table)} shapes: exactly the leading time axis of one entry is removed; payload axes of length one stay; several entries are refused", bad=worst or "")
